@@ -124,3 +124,71 @@ class FromMeta(Obligation):
         k='naive' if g['ver']=='Naive' else 'v01'
         if k not in self.seen: self.seen.add(k); rec['wit'].append(k)
         return rec
+
+class StatementHybrids(Obligation):
+    """statement documents that mix the members of the two statement formats, or carry an unknown member, under each `_type`:
+    a document is recognised as at most one statement version,
+    and nothing of an accepted document is dropped on the way back out"""
+    name='C19.statement_hybrids'
+    hash_order='fixed'
+    V01='https://in-toto.io/Statement/v0.1'
+    def __init__(self,seed=0,known=(),**kw):
+        self.seed=seed
+        self.bounds={'documents':'pure Naive, pure v0.1 (Link v0.2 predicate), the union of both member sets, each pure form plus one unknown member, the empty object','_type':['link',self.V01,'https://example.com/other'],
+                     'leaves':'concrete (the free-leaf variants are in statement_consistency and the round-trip obligations)'}
+        self.witnesses=['accepted_naive','accepted_v01','rejected_hybrid']; self.seen=set()
+    def setup(self,eng,tier):
+        self.eng=eng; self.b=B(eng); self.from_value=eng.find_method(None,'StatementWrapper','from_value')
+    def docs(self):
+        bp={'return-value':0,'stderr':'','stdout':''}
+        naive={'name':'n','materials':{},'products':{'p':{'sha256':'0a'}},'env':None,'command':[],'byproducts':bp}
+        pred={'name':'n','materials':{},'env':None,'command':[],'byproducts':bp}
+        v01={'subject':{'p':{'sha256':'0a'}},'predicateType':'https://in-toto.io/Link/v0.2','predicate':pred}
+        return [('naive',naive),('v01',v01),('hybrid',dict(naive,**v01)),('naive_plus_unknown',dict(naive,zz=1)),('v01_plus_unknown',dict(v01,zz=1)),('empty',{})]
+    def entry(self,eng):
+        from .C14 import py_to_value
+        def go(run,args):
+            doc=args[0]; v=py_to_value(doc)
+            try: st=('ok',md.de_type(eng,run,'StatementWrapper',clone_val(v),'tree'))
+            except md.DeFail: st=('err',None)
+            acc=[]
+            for ver in ('Naive','V0_1'):
+                r=eng.call_fn(run,self.from_value,[clone_val(v),self.b.variant('StatementVer',ver)])
+                acc.append(deref(r).vname=='Ok')
+            back=None
+            if st[0]=='ok':
+                from mirsym import models_serde as ms
+                try: back=ms.ser_value(eng,run,st[1])
+                except ms.SerError: back='ser_err'
+            return st,acc,back,v
+        return go
+    def mk_args(self,run):
+        docs=self.docs(); name,body=docs[run.pick(len(docs),'doc')]
+        ty=['link',self.V01,'https://example.com/other'][run.pick(3,'type')]
+        doc=dict(body); doc['_type']=ty
+        return [doc],{'doc':doc,'name':name,'type':ty}
+    def check(self,run,out,g):
+        rec={'outcome':'?','viol':None,'wit':[],'sample':None,'obl':1}
+        scn={'kind':'statement_doc','doc':g['doc']}
+        if out[0]!='ret':
+            rec['outcome']='panic'; rec['viol']={'kind':'panic','known_key':None,'scenario':scn,'predicted':'panic','what':'statement parsing panics: '+str(out[1])[:200]}; return rec
+        (st,val),acc,back,v=out[1]
+        rec['outcome']=st
+        if st=='ok':
+            variant=deref(val).vname
+            pred='ok:'+variant
+            same=back!='ser_err' and back is not None and val_eq(back,v)
+            same_b=bool(same.v) if (same is not False and same is not True and same.conc()) else bool(same) if isinstance(same,bool) else None
+            if sum(acc)>1:
+                rec['viol']={'kind':'statement_matches_several_versions','known_key':None,'scenario':scn,'predicted':pred,'confirm':{'reserialised_equal':False},'what':'a statement document (%s members, _type %s) is accepted under both statement versions'%(g['name'],g['type'])}; return rec
+            # (the `_type` text itself is not compared with the recognised version: the crate keeps it as an opaque string, and the
+            #  property speaks of the version a document is recognised as and of the declared *predicate* type - see DESIGN 10.5)
+            if same_b is False:
+                rec['viol']={'kind':'accepted_statement_loses_members','known_key':None,'scenario':scn,'predicted':pred,'confirm':{'reserialised_equal':False},'what':'an accepted statement document (%s members) does not serialise back to itself: members were silently dropped or altered'%g['name']}; return rec
+            w='accepted_naive' if variant=='Naive' else 'accepted_v01'
+            if w not in self.seen: self.seen.add(w); rec['wit'].append(w)
+            rec['sample']={'scenario':scn,'expect':pred,'confirm':{'reserialised_equal':True}}
+        else:
+            if g['name']=='hybrid' and 'rejected_hybrid' not in self.seen: self.seen.add('rejected_hybrid'); rec['wit'].append('rejected_hybrid')
+            rec['sample']={'scenario':scn,'expect':'err'}
+        return rec
